@@ -288,6 +288,7 @@ var integer32 = []*instructionType{
 		opcode:       opcodeShiftImm(false, 5, 0b001, 0b0010011),
 		inputRegCnt:  1,
 		hasOutputReg: true,
+		immediate:    immTypeShamt,
 		effects: func(i instruction) []expr.Effect {
 			val := regImmShift(binOpFunc(expr.Lsh), i, 5, width32)
 			return []expr.Effect{regStore(val, i, width32)}
@@ -297,6 +298,7 @@ var integer32 = []*instructionType{
 		opcode:       opcodeShiftImm(false, 5, 0b101, 0b0010011),
 		inputRegCnt:  1,
 		hasOutputReg: true,
+		immediate:    immTypeShamt,
 		effects: func(i instruction) []expr.Effect {
 			val := regImmShift(binOpFunc(expr.Rsh), i, 5, width32)
 			return []expr.Effect{regStore(val, i, width32)}
@@ -306,6 +308,7 @@ var integer32 = []*instructionType{
 		opcode:       opcodeShiftImm(true, 5, 0b101, 0b0010011),
 		inputRegCnt:  1,
 		hasOutputReg: true,
+		immediate:    immTypeShamt,
 		effects: func(i instruction) []expr.Effect {
 			val := regImmShift(exprtools.RshA, i, 5, width32)
 			return []expr.Effect{regStore(val, i, width32)}
